@@ -36,6 +36,7 @@ def _located_mask(spec, salt):
 
 class C18(Property):
     id = "C18"
+    anchors = ('finam.data.tools.mask:to_compressed', 'finam.data.tools.mask:from_compressed', 'finam.data.tools.mask:masks_compatible', 'finam.data.tools.mask:masks_equal', 'finam.data.tools.core:prepare')
     technique = "numpy reference for compress/expand, fixed-mask prepare monitor, explicit acceptance-table oracle on Info.accepts and real links, located masks across grid layouts"
     rule = (
         "three case kinds: (roundtrip) random shape<=3-D sizes 1-4, order C/F, mask none/empty/partial/full, plain/Quantity/masked input, mask "
